@@ -268,8 +268,7 @@ class Registrations(Part):
                                              f"session {name} (decoding order {first} first): got {got2!r}, expected {[w]!r}"))
         # a registration whose id collides with a BUILT-IN type is a duplicate too: it is rejected - or, if a session
         # accepts it, it takes effect (the session decodes that id with the registered class); never a silent no-op
-        for what, ident in (("control", rfc4511.OID_PAGED), ("control", rfc4511.OID_SHOW_DELETED), ("filter", 3), ("filter", 7), ("filter", 0),
-                            ("auth", 0), ("auth", 3)):
+        for what, ident in ([("control", oid) for oid in sorted(rfc4511.KNOWN_OIDS)] + [("filter", n) for n in range(10)] + [("auth", 0), ("auth", 3)]):
             if side == "client" and what != "control":
                 continue
             s = copy.deepcopy(A)
@@ -327,6 +326,91 @@ class Registrations(Part):
         return out
 
 
+class SharedBuffer(Part):
+    """The application hands the SAME mutable buffer object to two sessions (one read buffer for all connections):
+    each session behaves as if it had been given its own copy (enumerated: side x cut position x container)."""
+
+    name = "shared-buffer"
+    exhaustive = True
+    shards = {QUICK: 4, THOROUGH: 4}
+
+    def enumerate(self, tier: str, shard: int, nshards: int) -> t.Iterable[t.Any]:
+        k = 0
+        for side in ("client", "server"):
+            n = len(self._stream(side))
+            for cut in range(0, n + 1):
+                for container in ("bytearray", "memoryview"):
+                    for reuse in (False, True):
+                        if k % nshards == shard:
+                            yield {"side": side, "cut": cut, "container": container, "reuse": reuse}
+                        k += 1
+
+    @staticmethod
+    def _stream(side: str) -> bytes:
+        if side == "server":
+            ms = [history.peer_message("searchRequest", 1, 0, 0), history.peer_message("extendedReq", 2, 0, 3)]
+        else:
+            ms = [history.peer_message("searchResEntry", 1, 0, 0), history.peer_message("searchResDone", 1, 0, 2)]
+        return b"".join(rfc4511.encode(m) for m in ms)
+
+    def check(self, c: t.Any, ctx: Ctx) -> t.List[Violation]:
+        side = c["side"]
+        stream = self._stream(side)
+        cut = c["cut"]
+
+        def fresh() -> t.Any:
+            s = sess.new(side)
+            if side == "client":
+                s.search_request()
+                s.data_to_send()
+            return s
+
+        def feed(s: t.Any, data: t.Any) -> t.Any:
+            try:
+                return [absval.to_abstract(m, decoded=True) for m in s.receive(data)]
+            except BaseException as e:
+                return type(e).__name__
+
+        alone = fresh()
+        want = [feed(alone, stream[:cut]), feed(alone, stream[cut:])]
+        a, b = fresh(), fresh()
+        tail = stream[cut:]
+        if c["container"] == "bytearray":
+            buf = bytearray(stream[:cut])
+            obj: t.Any = buf
+        else:
+            # a fixed-size read buffer and views of its filled part (recv_into)
+            buf = bytearray(max(cut, len(tail), 1))
+            buf[:cut] = stream[:cut]
+            obj = memoryview(buf)[:cut]
+        got_a = [feed(a, obj)]
+        got_b = [feed(b, obj)]
+        if c["reuse"]:
+            # the application reads the next bytes into the same buffer object
+            if c["container"] == "bytearray":
+                try:
+                    buf[:] = tail
+                except BufferError as e:
+                    return [Violation("shared-buffer:session-kept-an-export-of-the-callers-buffer", f"{side}, cut {cut}: {e!r}")]
+                obj2: t.Any = buf
+            else:
+                obj.release()
+                buf[: len(tail)] = tail
+                obj2 = memoryview(buf)[: len(tail)]
+        else:
+            obj2 = bytearray(tail)
+        got_a.append(feed(a, obj2))
+        got_b.append(feed(b, obj2))
+        ctx.event(f"cut:{'boundary' if cut in (0, len(stream)) else 'inside'}")
+        ctx.nontrivial(repr(c))
+        out = []
+        for name, got in (("first", got_a), ("second", got_b)):
+            if got != want:
+                out.append(Violation(f"shared-buffer:{name}-session-differs-from-alone",
+                                     f"{side}, stream cut at {cut}, {c['container']}{' reused for the tail' if c['reuse'] else ''}: got {got!r}, alone {want!r}"))
+        return out
+
+
 PROP = Property(
     id="C19",
     rule=(
@@ -337,10 +421,14 @@ PROP = Property(
         "alone on a fresh session equals its transcript when interleaved with the other. Registration clause checked "
         "directly for all ordered subsets of the 3 custom types x both sides: duplicate registration raises ValueError; "
         "bytes carrying T decode to T on the registering session, to a generic control / ProtocolError on a session "
-        "created before and on one created after; fresh sessions can still register. Non-trivial = a registration in "
+        "created before and on one created after; fresh sessions can still register; a registration whose id collides with "
+        "any built-in type (3 control OIDs, filter ids 0-9, credential ids 0 and 3) is rejected or effective. Part "
+        "shared-buffer (enumerated): the same bytearray / memoryview object holding a stream prefix (every cut position) "
+        "is handed to two sessions, then the tail (in a new object or in the same, reused one): both behave as alone. "
+        "Non-trivial = a registration in "
         "one script and a delivery of a custom type in the other, or both clients issue requests; distinct by case."
     ),
-    parts=[Pairs(), Registrations()],
+    parts=[Pairs(), Registrations(), SharedBuffer()],
     assumptions=["the global cache behind LDAPResultCode(<unknown>) is shared by design; transcripts compare result codes by value"],
     technique="differential property testing (interleaved vs isolated transcripts) + enumerated registration subsets",
 )
